@@ -111,26 +111,32 @@ def forbidden_scan():
 
 
 def audit(pid, modules, theorems):
-    """#print axioms for every property theorem; returns {theorem: (ok, axioms|error)}"""
+    """#print axioms for every property theorem; returns {theorem: (ok, axioms|error)}.
+    One audit file per module, so a module that no longer builds only takes its own theorems with it."""
     d = WORK / pid
     d.mkdir(parents=True, exist_ok=True)
-    src = "".join(f"import {m}\n" for m in modules) + "".join(f"#print axioms {t}\n" for t in theorems)
-    (d / "Audit.lean").write_text(src)
-    with Lock("lake"):
-        p = sh(["lake", "env", "lean", str(d / "Audit.lean")], cwd=LEAN, timeout=1200)
     res = {}
-    text = p.stdout
-    for t in theorems:
-        m = re.search(r"'" + re.escape(t) + r"' depends on axioms: \[([^\]]*)\]", text, re.S)
-        if m:
-            ax = [a.strip() for a in m.group(1).replace("\n", " ").split(",") if a.strip()]
-            bad = [a for a in ax if a not in ALLOWED_AXIOMS]
-            res[t] = (not bad, ax)
-        elif re.search(r"'" + re.escape(t) + r"' does not depend on any axioms", text):
-            res[t] = (True, [])
-        else:
-            res[t] = (False, "not checked: " + (text.strip().splitlines()[0][:300] if text.strip() else "no output"))
-    return res, text
+    texts = []
+    for k, m in enumerate(modules):
+        todo = [t for t in theorems if not (t in res and res[t][0])]
+        if not todo: break
+        f = d / (f"Audit{k}.lean" if k else "Audit.lean")
+        f.write_text(f"import {m}\n" + "".join(f"#print axioms {t}\n" for t in todo))
+        with Lock("lake"):
+            p = sh(["lake", "env", "lean", str(f)], cwd=LEAN, timeout=1200)
+        text = p.stdout; texts.append(text)
+        for t in todo:
+            mm = re.search(r"'" + re.escape(t) + r"' depends on axioms: \[([^\]]*)\]", text, re.S)
+            if mm:
+                ax = [a.strip() for a in mm.group(1).replace("\n", " ").split(",") if a.strip()]
+                bad = [a for a in ax if a not in ALLOWED_AXIOMS]
+                res[t] = (not bad, ax)
+            elif re.search(r"'" + re.escape(t) + r"' does not depend on any axioms", text):
+                res[t] = (True, [])
+            elif t not in res:
+                err = [l for l in text.strip().splitlines() if "error" in l and (t in l or "object file" in l or "import" in l)]
+                res[t] = (False, "not checked: " + (err[0][:300] if err else "not found in the audited modules"))
+    return res, "\n".join(texts)
 
 
 def failing_decls(build_log):
